@@ -19,6 +19,7 @@ def u_mask(E):
     E.assume(s.n >= 10)
     E.assume(c.n == 1)
     E.cover('mask/pre')
+    E.native_input({'kind': 'mask', 's': s, 'c': c})
     r = E.call(Q + 'mask', s, c)
     if not (isinstance(r, VSeq) and r.kind == 'str'):
         E.prove('mask/returns-str', False, 'P')
@@ -35,6 +36,7 @@ def u_mask(E):
 def u_mask_default(E):
     s = E.fresh_seq('str', 's')
     E.assume(s.n >= 10)
+    E.native_input({'kind': 'mask', 's': s, 'c': None})
     r = E.call(Q + 'mask', s)
     E.prove('mask/default/len', r.n == s.n, 'P')
     k = E.fresh_int('k')
@@ -63,6 +65,7 @@ def u_ccd(E):
     """result == str((9 * LS(digits)) mod 10) with LS the Luhn sum written from the definition"""
     s = digit_string(E, 's')
     E.cover('ccd/pre')
+    E.native_input({'s': s, 'opt': False})
     r = E.call(Q + 'calculate_check_digit', s)
     expect_char(E, 'ccd', r, 48 + S.luhn_cd(E, lambda i: s.at(i) - 48, s.n))
 
@@ -70,6 +73,7 @@ def u_ccd(E):
 @unit('card.add_check_digit/post', props=['C15'], functions=[Q + 'add_check_digit'])
 def u_add(E):
     s = digit_string(E, 's')
+    E.native_input({'s': s, 'opt': False})
     r = E.call(Q + 'add_check_digit', s)
     if not (isinstance(r, VSeq) and r.kind == 'str'):
         E.prove('add/returns-str', False, 'P')
@@ -101,6 +105,7 @@ def u_validate(E):
     n1 = s.n - 1
     good = I(s.at(n1)) == 48 + S.luhn_cd(E, lambda i: s.at(i) - 48, n1)
     E.cover('validate/pre')
+    E.native_input({'s': seq_slice(s, None, n1), 'opt': not E.debug_flag})
     out, r = validate_outcome(E, s)
     if out == 'ok':
         E.cover('validate/accepts')
@@ -118,6 +123,7 @@ def u_validate(E):
 def u_validate_add(E):
     """appending the check digit always gives a number that validates"""
     s = digit_string(E, 's')
+    E.native_input({'s': s, 'opt': not E.debug_flag})
     t = E.call(Q + 'add_check_digit', s)
     out, r = validate_outcome(E, t)
     if out != 'ok':
